@@ -144,7 +144,7 @@ partial def fragWhy (defs : Defs) (pair : Bool) (s : JS) : Option String :=
              | _, _ => some "items-form")
           else if t = "object" then
             (if props.isEmpty then (match addl with | .schema e => fragWhy defs true e | _ => none)
-             else if !(match addl with | .bool false => true | _ => false) then some "open-object"
+             else if !addlIsFalse addl then some "open-object"
              else if !sortedKeys props then some "props-not-sorted"
              else firstSomeJ (fun (p : String × JS) =>
                match fragWhy defs true p.2 with
